@@ -599,7 +599,7 @@ class Sandbox:
             self._current_stdout.append(PrintingStringIO())
         # And do the patches
         self._start_patches(
-            patch.dict('sys.modules', overridden_modules),
+            patch.dict(sys.modules, overridden_modules),
             patch.object(sys, 'stdout', self._current_stdout[-1]),
             # The real module, whatever the instructor mocked or blocked under the name `time`
             patch.object(time, 'sleep', return_value=None),
